@@ -71,6 +71,7 @@ def oracle(ctx, name, case, obs, check_next=True):
     en, pm, ps, isr, ops = case
     nm = ns = None
     prev = None
+    saved = None
     for op, ob in zip(ops, obs.split(";")):
         f = ob.split(",")
         if len(f) != 5:
@@ -94,6 +95,10 @@ def oracle(ctx, name, case, obs, check_next=True):
                     ctx.report([name, "isr_not_set", lab], f"{name}: {lab} fired but ISR={isr2:#x}", {"case": fmt(case), "op": op})
             if (isr2 & ~3) != (pisr & ~3) and not name.endswith("_kb"):
                 ctx.report([name, "isr_other_bits"], f"{name}: ISR bits other than MTI/STI changed {pisr:#x}->{isr2:#x}", {"case": fmt(case), "op": op})
+        if kind == "S":
+            saved = (m2, s2, isr2)
+        if kind == "L" and saved is not None and (m2, s2, isr2) != saved:
+            ctx.report([name, "rewind_does_not_restore_timer_state"], f"{name}: loading the earlier snapshot into the running machine gives targets/ISR {(m2, s2, isr2)}, saved {saved}", {"case": fmt(case), "op": op})
         if kind == "z" and prev is not None and (m2, s2) != prev[:2]:
             ctx.report([name, "snapshot_restore_moves_timer_target"], f"{name}: save + load moved the timer targets {prev[:2]} -> {(m2, s2)}", {"case": fmt(case), "op": op})
         prev = (m2, s2, isr2)
@@ -196,6 +201,29 @@ def run(ctx):
             c += ctx.rng.choice([0, 1, 1, 2, pm, ps])
             ops.append(f"t:{c}")
         zl.append((1, pm, ps, 0, ops))
+    wl = []
+    # rewinds: save, run the same machine on across at least one boundary (status bits left unacknowledged), load the saved
+    # snapshot back into that machine, and cross the next boundaries: the clauses above hold for what it does then
+    for _ in range(300 if ctx.tier == "thorough" else 40):
+        pm, ps = ctx.rng.randint(1, 12), ctx.rng.randint(1, 12)
+        c = 0
+        ops = []
+        for _ in range(ctx.rng.randint(0, 3)):
+            c += ctx.rng.randint(1, 2 * pm)
+            ops.append(f"t:{c}")
+        ops.append("S")
+        c0 = c
+        for _ in range(ctx.rng.randint(1, 4)):
+            c += ctx.rng.choice([1, pm, ps, pm + ps])
+            ops.append(f"t:{c}")
+        ops.append("L")
+        c = c0
+        for _ in range(ctx.rng.randint(2, 6)):
+            c += ctx.rng.choice([0, 1, 1, 2, pm, ps])
+            ops.append(f"t:{c}")
+        wl.append((1, pm, ps, ctx.rng.choice([0, 0, 0, 1, 2, 0x80]), ops))
+    nz = len(zl)
+    zl = zl + wl
     zo, ze = common.run_sharded(PYDRV, ["timer_emu " + fmt(c) for c in zl], env=env)
     if ze.strip():
         ctx.notes.append(f"timer_emu (restore points) stderr: {ze.strip()[-300:]}")
@@ -208,7 +236,9 @@ def run(ctx):
         else:
             oracle(ctx, "emu", case, o, check_next=True)
             ctx.nontrivial.add("z:" + fmt(case))
-    ctx.count("machine snapshot-restore cases", len(zl))
+    ctx.count("machine snapshot-restore cases", nz)
+    ctx.count("machine rewind cases (load into the running machine)", len(zl) - nz)
+    zl = zl[:nz]
     # the same restore points on the Rust timer: snapshot_info applied to a context that was configured with other periods
     # before (so a field the loader fails to overwrite shows), including switched-off (zero-period) timers
     if okr:
